@@ -9,6 +9,7 @@ ID = "C05"
 TITLE = "Index and point selection return the stored values, complete and in order"
 MC = {"quick": [("MC_Cells", "MC_C05.cfg", 8)], "thorough": [("MC_Cells", "MC_C05_thorough.cfg", 16)]}
 TRACE = ("Trace_Cells", "Trace_Cells.cfg")
+THOROUGH_EXTRA_SEEDS = 2
 REQUIRED = ["held-memory", "held-file", "held-dask", "held-emsopen", "SelectIndex", "SelectIndexes", "SelectPoints", "ExtractDF", "repeats", "only-first-missing", "only-last-missing", "policy-error", "policy-drop",
             "policy-fill", "points-error-raised", "default-dim", "default-dim-collision", "holes", "Mutate", "after-mutation",
             "cf1d", "cf2d", "shoc_simple", "shoc_standard", "arakawa", "ugrid",
